@@ -282,6 +282,17 @@ def replay_ops(path, name, exprs):
 def confirm(replay, verbose=False):
     mc = mcx.Mc()
     try:
+        if replay.get("kind") == "keys":
+            old_mc = mcx._worker_mc
+            mcx._worker_mc = mc
+            try:
+                v, _ = work_keys((replay["config"], replay["prefs"], [h for h in key_histories() if h[0] == replay["label"]]))
+            finally:
+                mcx._worker_mc = old_mc
+            if verbose:
+                for k, w, _ in v:
+                    print(" ", k, "—", w)
+            return {k for k, _, _ in v}
         if replay.get("kind") == "corpus":
             old_mc = mcx._worker_mc
             mcx._worker_mc = mc
@@ -392,6 +403,50 @@ def work_corpus(item):
     return viol, counts, outcomes
 
 
+# ---------------------------------------------------------------------------------------------
+# place markers through the KEY-PRESS entry point: digit i moves to marker i, Ctrl+digit i sets it (the documented key map); every ordered
+# pair of markers by keys, and every marker set by key / reached by command and the other way round
+
+def key(d, ctrl=False, shift=False):
+    return ["key", 48 + d, shift, ctrl, False, False]
+
+
+def key_histories():
+    hs = []
+    pre = [["nav", "ZoomIn"], ["navid"]]
+    mid = [["nav", "MoveNext"], ["nav", "MoveNext"], ["navid"]]
+    for i in range(10):
+        for j in range(10):
+            if i != j:
+                hs.append((f"keys:{i},{j}", pre + [key(i, ctrl=True)] + mid + [key(j, ctrl=True), ["nav", "MoveNext"], key(i), ["navid"], key(j), ["navid"]], [(1, 9), (5, 11)]))
+        hs.append((f"key-set,command-move:{i}", pre + [key(i, ctrl=True)] + mid + [["nav", f"MoveTo{i}"], ["navid"]], [(1, 7)]))
+        hs.append((f"command-set,key-move:{i}", pre + [["nav", f"SetPlacemarker{i}"]] + mid + [key(i), ["navid"]], [(1, 7)]))
+    return hs
+
+
+def work_keys(item):
+    cname, prefs, hs = item
+    mc = mcx.worker_mc()
+    setup = [["rules_dir", mcx.RULES]] + prefs
+    d = terms.doc(RAW[0])
+    _, res = mc.run_cases(setup, [[["mathml", d]] + ops for _, ops, _ in hs], fresh=True)
+    viol, n = [], 0
+    for (label, ops, pairs), r in zip(hs, res):
+        r = r[1:]
+        if any(is_panic(x) for x in r):
+            continue
+        for a, b_ in pairs:
+            n += 1
+            if not (is_ok(r[a]) and is_ok(r[b_])):
+                continue
+            if val(r[a])[0] != val(r[b_])[0]:
+                kind = label.split(":")[0]
+                viol.append((f"C11|I3-marker-by-key|{kind}|{cname}", f"[{cname}] {label}: the marker was set on {norm_ids(val(r[a]))[0]!r} but moving to it lands on {norm_ids(val(r[b_]))[0]!r}",
+                             {"kind": "keys", "config": cname, "prefs": prefs, "label": label}))
+                break
+    return viol, n
+
+
 CONFIGS = [
     ("Enhanced", [["pref", "NavMode", "Enhanced"], ["pref", "Overview", "false"], ["pref", "AutoZoomOut", "true"]]),
     ("Character", [["pref", "NavMode", "Character"], ["pref", "Overview", "false"], ["pref", "AutoZoomOut", "true"]]),
@@ -450,6 +505,12 @@ def main(tier):
         run.merge_counts(counts)
         stats["transitions"] += counts["corpus_transitions"]
         stats["outcomes"] |= outcomes
+    kh = key_histories()
+    run.count("key_histories", len(kh) * 3)
+    kjobs = [(cname, base + cfg[cname], kh[i:i + 20]) for cname in ("Enhanced", "Simple", "Character") for i in range(0, len(kh), 20)]
+    for viol, n in mcx.pmap(work_keys, kjobs):
+        run.merge_violations(viol)
+        stats["transitions"] += n
     run.counters["evaluations"] = stats["transitions"]
     run.counters["skipped_panics"] = stats["skipped_panics"]
     for o in stats["outcomes"]:
@@ -461,7 +522,8 @@ def main(tier):
              "rare-transition count); alphabet full = 36 navigation commands + set_mathml(other/same) + set_navigation_node(4 positions, unknown id), core = 9 commands + the same extras; "
              "rare transitions (place markers, toggles, set_mathml, set_navigation_node) at most twice per path; per run: " + json.dumps(per) +
              "; expression breadth: one fixed walk of %d commands (moves, reads, marks, undo, toggles) over %d terms (spine terms, trigger terms, deviations with missing/empty parts) "
-             "in %s, the same invariants after every step. distinct_nontrivial = distinct command results observed" % (len(WALK), len(corp), "3 navigation modes" if tier == "quick" else "all 6 configurations"),
+             "in %s, the same invariants after every step; place markers through do_navigate_keypress: every ordered pair of the ten markers "
+             "set and reached by keys, each marker set by key / reached by command and the reverse, in three modes. distinct_nontrivial = distinct command results observed" % (len(WALK), len(corp), "3 navigation modes" if tier == "quick" else "all 6 configurations"),
         coverage_extra={"states": stats["states"], "transitions": stats["transitions"], "traces_validated_against_impl": stats["traces"],
                         "frontier_sizes": stats["levels"], "runs": per},
         assumptions=["the hook's restore is validated against replay through the public API for every state of the first levels (a disagreement aborts the run as a machinery error)",
